@@ -238,6 +238,16 @@ func (r reentrantY) Format(f fmt.State, verb rune) {
 	}
 }
 
+// reentrantBad finds the SafePrinter behind its fmt.State and prints an operand whose method panics with an unprintable payload.
+type reentrantBad struct{ bad interface{} }
+
+func (r reentrantBad) Format(f fmt.State, verb rune) {
+	if sp, ok := f.(redact.SafePrinter); ok {
+		sp.Print("before", r.bad)
+		sp.Printf("%v", r.bad)
+	}
+}
+
 func abnormals() []abnormal {
 	rec := func(f func()) {
 		defer func() { recover() }()
@@ -252,6 +262,20 @@ func abnormals() []abnormal {
 		{"propagated-through-nested", func(y func()) {
 			rec(func() {
 				_ = redact.Sprint(c11outer{"h1", "h2", tPanicStringer{panicSpec{mode: 4, msg: "p"}}, true, ""})
+			})
+		}},
+		{"propagated-through-nested-under-safe", func(y func()) {
+			// the nested printers inherit the wrapper's override and are unwound by the panic
+			rec(func() {
+				_ = redact.Sprint(redact.Safe(c11outer{"h1", "h2", tPanicStringer{panicSpec{mode: 4, msg: "p"}}, false, ""}))
+			})
+			rec(func() {
+				_ = redact.Sprintf("%v", redact.Safe(c11outer{"h1", "h2", tPanicErr{panicSpec{mode: 4, msg: "p"}}, true, "+"}))
+			})
+		}},
+		{"propagated-through-nested-under-unsafe", func(y func()) {
+			rec(func() {
+				_ = redact.Sprintf("%v", redact.Unsafe(reentrantBad{tPanicStringer{panicSpec{mode: 4, msg: "p"}}}))
 			})
 		}},
 		{"contained-after-nested-repanic", func(y func()) {
